@@ -2877,7 +2877,7 @@ int main(int argc, char** argv)
          || try_replay<ArrSys<0>>(c, kv) || try_replay<ArrSys<1>>(c, kv) || try_replay<ArrSys<2>>(c, kv) || try_replay<ListSys<false>>(c, kv) || try_replay<ListSys<true>>(c, kv);
       });
    }
-   Report rep(args, "model_checking", thorough ? 2400 : 300);
+   Report rep(args, "model_checking", thorough ? 3000 : 400);
    rep.all.maxSamples = 200;      // thinned to one sample per phase before the evidence is written
    RunOpts o = rep.opts();
    o.perturb = {85};
@@ -2888,9 +2888,9 @@ int main(int argc, char** argv)
    struct DepthRow { const char* ph; int d[4]; };
    static const DepthRow DEPTH[] =
    {
-      {"dataset", {5, 6, 4, 5}}, {"classset", {5, 6, 4, 5}}, {"svset", {5, 6, 4, 5}}, {"lprowset", {5, 6, 4, 5}}, {"lpcolset", {5, 6, 4, 5}},
+      {"dataset", {5, 6, 4, 5}}, {"classset", {5, 6, 4, 5}}, {"svset", {5, 6, 4, 5}}, {"lprowset", {5, 7, 4, 5}}, {"lpcolset", {5, 7, 4, 5}},
       {"idxset", {6, 7, 5, 6}}, {"didxset", {6, 7, 5, 6}}, {"nameset", {5, 6, 4, 5}}, {"hashtable", {6, 7, 5, 6}},
-      {"dataarray", {5, 7, 5, 6}}, {"array", {6, 7, 5, 6}}, {"classarray", {5, 7, 5, 6}}, {"islist", {6, 7, 5, 6}}, {"idlist", {6, 7, 5, 6}}
+      {"dataarray", {5, 6, 5, 5}}, {"array", {6, 8, 5, 6}}, {"classarray", {5, 6, 5, 5}}, {"islist", {6, 7, 5, 6}}, {"idlist", {6, 7, 5, 6}}
    };
    int col = (thorough ? 1 : 0) + (ASAN ? 2 : 0);
    int dd = atoi(args.get("dd", "0").c_str());
